@@ -242,6 +242,14 @@ def c14_obligations(model, rep, r):
                     witness = lf
                     break
             where = "%s:%d" % (rel, fn.lineno)
+            if not ok and oid in ("parent-admits-type", "type-admits-children", "root-with-children-only", "not-last-source"):
+                # these obligations are written over the relation tables (_get_parents() / _get_childs()); a method that asks the graph
+                # for one node's neighbours itself decides on conditions they do not name
+                direct = sorted({x.attr for x in ast.walk(fn) if isinstance(x, ast.Attribute) and x.attr in (
+                    "predecessor_indices", "successor_indices", "predecessors", "successors", "in_degree", "out_degree", "in_edges", "out_edges")})
+                if direct:
+                    raise AnalysisError("%s queries the graph directly (%s): obligation '%s' is written over the relation tables and cannot be decided on it" % (
+                        mname, ", ".join(direct), oid))
             if not ok:
                 first = witness.events[first_effect_index(witness)]
                 rep.violation("R1", "system.System.%s" % mname, where,
@@ -730,6 +738,25 @@ def link_direction_rule(model, rep, r, rule):
                         and vkey(src.key[2].key[1]) == vkey(lst.key[2]):
                     sl = show_value(src.key[2].key[2]).replace(" ", "")
                     good = sl in ("slice((1,None,None))", "slice((1,None,1))")
+            if not good and vkey(c) == vkey(newnode) and isinstance(lst, Sym) and lst.key[0] == "listcomp" and len(lst.key) == 3:
+                # the stored list is [f(x) for x in IT] and the link goes to f(IT[k]), k over range(1, ..): its k-th element
+                from .summ import replace_bound
+
+                def elems(v, out):
+                    if isinstance(v, Sym):
+                        if v.key[0] == "elem" and "range(1, " in show_value(v):
+                            out.append(v)
+                        for x in v.key[1:]:
+                            elems(x, out)
+                    elif isinstance(v, (tuple, list)):
+                        for x in v:
+                            elems(x, out)
+                    elif isinstance(v, ListV):
+                        elems(v.items, out)
+                    return out
+                for idx in elems(p, []):
+                    if vkey(replace_bound(lst.key[1], Sym(("sub", lst.key[2], idx)))) == vkey(p):
+                        good = True
             if not good:
                 ok = False
                 rep.violation(rule, "system.System.add_comp", "%s:%d" % (rel, e[4]), "a further input is linked as add_edge(%s, %s), expected (k-th declared parent for k >= 1, the new node)" % (show_value(p)[:80], show_value(c)[:60]), "add_edge operands")
